@@ -124,10 +124,11 @@ pub fn adjust(cfg: &mut SwarmCfg, tier: &str, r: &mut Prng) {
             cfg.knobs.push(("dup-heavy".into(), 1));
         }
         "C18" => {
-            cfg.oracles = sv(&["agreement", "retention", "state-unchanged", "psk-twin"]);
-            cfg.faults = sv(&["A-PSK-MISSING", "A-PSK-DIFF", "N-REORD", "N-RACE"]);
+            cfg.oracles = sv(&["agreement", "retention", "state-unchanged", "kdf-model", "record-crypto"]);
+            cfg.faults = sv(&["A-PSK-MISSING", "A-PSK-DIFF", "N-REORD", "N-RACE", "B-FORGE"]);
             cfg.knobs.push(("psk".into(), 2));
             cfg.n_parties = cfg.n_parties.clamp(3, 7);
+            setw(cfg, "forge", 5);
             setw(cfg, "commit", 18);
             setw(cfg, "propose", 12);
             setw(cfg, "write", 10);
@@ -215,6 +216,7 @@ pub fn adjust(cfg: &mut SwarmCfg, tier: &str, r: &mut Prng) {
             cfg.suite = *r.pick(&[1u16, 1, 2, 3, 7]);
             cfg.n_parties = cfg.n_parties.min(6);
             cfg.steps = cfg.steps.min(50);
+            setw(cfg, "x509_case", 12);
             setw(cfg, "corrupt", 10);
             setw(cfg, "send_app", 12);
             setw(cfg, "commit", 14);
@@ -324,6 +326,9 @@ pub fn extra_kinds(w: &World, kinds: &mut Vec<(&'static str, u32)>) {
     }
     if w.cfg.weight("byz") > 0 && w.live_members(g).len() >= 2 {
         kinds.push(("byz", w.cfg.weight("byz")));
+    }
+    if w.cfg.weight("x509_case") > 0 {
+        kinds.push(("x509_case", w.cfg.weight("x509_case")));
     }
     if w.cfg.weight("update_clash") > 0 && g == 0 && w.live_members(g).len() >= 3 {
         kinds.push(("update_clash", w.cfg.weight("update_clash")));
@@ -455,6 +460,12 @@ pub fn extra_action(w: &mut World, kind: &str) -> Option<Action> {
                 m,
             })
         }
+        "x509_case" => Some(Action::Special {
+            kind: "x509_case".into(),
+            a: w.prng.next_u64() >> 16,
+            b: w.prng.below(64),
+            c: w.prng.below(9),
+        }),
         "update_clash" => {
             let live = w.live_members(g);
             let p = *w.prng.pick(&live);
@@ -471,7 +482,7 @@ pub fn extra_action(w: &mut World, kind: &str) -> Option<Action> {
             Some(Action::Special {
                 kind: "forge".into(),
                 a: p as u64,
-                b: if w.cfg.knob("templates").is_some() { w.prng.below(11) } else { w.prng.below(8) },
+                b: if w.cfg.knob("templates").is_some() { w.prng.below(12) } else { w.prng.below(9) },
                 c: w.prng.below(8),
             })
         }
@@ -595,7 +606,7 @@ pub fn extra_action(w: &mut World, kind: &str) -> Option<Action> {
             let p = *w.prng.pick(&live);
             // 22 (leaf capabilities without the group's cipher suite) is not used for verdicts: RFC 9420 does
             // not clearly require receivers to reject it and mls-rs accepts it
-            let codes: [u64; 16] = [1, 2, 3, 4, 5, 6, 7, 8, 9, 20, 21, 23, 23, 30, 31, 1];
+            let codes: [u64; 20] = [1, 2, 3, 4, 5, 6, 7, 8, 9, 20, 21, 23, 23, 30, 31, 1, 32, 32, 33, 33];
             Some(Action::Special {
                 kind: "byz".into(),
                 a: p as u64,
